@@ -4,27 +4,47 @@
 
 #include "c11_big.h"
 #include "c11_lambda.h"
+#include "c12_targets.h"
 
 namespace c12big
 {
 using namespace c11;
 
-inline bool dispatch(const std::string &type, splitmix &r, const std::string &bytes)
+// Building a target by its history costs more than the load under test: the last few targets are kept (keyed by
+// the target seed) and COPIED for each request (the copy carries every member, cached signatures included).
+template<class T, class Make> T cached_target(std::uint64_t tseed, Make make)
+{
+  static std::map<std::uint64_t, T> cache;
+  static std::vector<std::uint64_t> order;
+  auto it(cache.find(tseed));
+  if (it == cache.end())
+  {
+    if (order.size() >= 24)
+    {
+      cache.erase(order.front());
+      order.erase(order.begin());
+    }
+    it = cache.emplace(tseed, make()).first;
+    order.push_back(tseed);
+  }
+  return it->second;
+}
+
+inline bool dispatch(const std::string &type, std::uint64_t tseed, splitmix &r, const std::string &bytes)
 {
   if (type == "imep")
   {
-    i_mep x(make_imep(r, false));
-    (void)x.signature();      // the cached signature is part of the target's state
-    std::cout << run_load(x, bytes, [](i_mep &y, std::istream &in) { return y.load(in, M().prob.sset); },
+    i_mep x(cached_target<i_mep>(tseed, [&r] { return c12t::make_target_imep(r); }));
+    std::cout << run_load(type, x, bytes, [](i_mep &y, std::istream &in) { return y.load(in, M().prob.sset); },
                           [](const i_mep &y) { return snap(y); }, [](const i_mep &y) { return enc(y); })
               << "\n";
     return true;
   }
   if (type == "team")
   {
-    team<i_mep> x(make_team(r));
-    (void)x.signature();
-    std::cout << run_load(x, bytes, [](team<i_mep> &y, std::istream &in) { return y.load(in, M().prob.sset); },
+    team<i_mep> x(cached_target<team<i_mep>>(tseed, [&r] { return c12t::make_target_team(r); }));
+    std::cout << run_load(type, x, bytes,
+                          [](team<i_mep> &y, std::istream &in) { return y.load(in, M().prob.sset); },
                           [](const team<i_mep> &y) { return snap(y); },
                           [](const team<i_mep> &y) { return enc(y); })
               << "\n";
@@ -32,10 +52,9 @@ inline bool dispatch(const std::string &type, splitmix &r, const std::string &by
   }
   if (type == "pop")
   {
-    population<i_mep> x(make_pop(r));
-    for (unsigned l(0); l < x.layers(); ++l)
-      for (unsigned i(0); i < x.individuals(l); ++i) (void)x[{l, i}].signature();
-    std::cout << run_load(x, bytes, [](population<i_mep> &y, std::istream &in) { return y.load(in, M().prob); },
+    population<i_mep> x(cached_target<population<i_mep>>(tseed, [&r] { return c12t::make_target_pop(r); }));
+    std::cout << run_load(type, x, bytes,
+                          [](population<i_mep> &y, std::istream &in) { return y.load(in, M().prob); },
                           [](const population<i_mep> &y) { return snap(y); },
                           [](const population<i_mep> &y) { return enc(y); })
               << "\n";
@@ -43,11 +62,9 @@ inline bool dispatch(const std::string &type, splitmix &r, const std::string &by
   }
   if (type == "summ")
   {
-    summary<i_mep> x(make_summ(r));
-    if (!x.best.solution.empty()) (void)x.best.solution.signature();
-    // give the analyzer some content: load() replaces the whole object
-    x.az.add(make_imep(r, false, 8), make_fit(r, false), 0);
-    std::cout << run_load(x, bytes, [](summary<i_mep> &y, std::istream &in) { return y.load(in, M().prob); },
+    summary<i_mep> x(cached_target<summary<i_mep>>(tseed, [&r] { return c12t::make_target_summ(r); }));
+    std::cout << run_load(type, x, bytes,
+                          [](summary<i_mep> &y, std::istream &in) { return y.load(in, M().prob); },
                           [](const summary<i_mep> &y) { return snap(y); },
                           [](const summary<i_mep> &y) { return enc(y); })
               << "\n";
@@ -76,6 +93,18 @@ inline std::string load_lambda(unsigned prob, const std::string &bytes)
   catch (const std::exception &e) { return std::string("exc:std:") + typeid(e).name() + " same -"; }
   if (!y) return "null same -";
   return "ok same " + verif::hex(lambda_bytes(*y));
+}
+
+// `ld cachet <target seed> <hex>`: cache::load on a cache populated by a history (insert / clear / find).
+// Outside the property's list (documented "could be changed"): the check only requires what the flow
+// analysis proves, i.e. that a failed load modifies nothing but `table_`.
+inline std::string load_cache_target(splitmix &r, const std::string &bytes)
+{
+  cache_case k(make_cache(r));
+  const unsigned bits(k.bits);
+  return run_load("cachet", *k.c, bytes, [](cache &y, std::istream &in) { return y.load(in); },
+                  [bits](const cache &y) { return enc_cache(y, bits); },
+                  [bits](const cache &y) { return enc_cache(y, bits); });
 }
 
 // `ld cache <bits> <hex>`: cache::load is outside C12 (documented "could be changed"); the entry is
